@@ -1,9 +1,5 @@
 /- Umbrella of the canonical-text tie (tools/canon.py): one module per item under Lemmas/Canon. -/
-import Qvnt.Lemmas.Canon.MacroStruct
-import Qvnt.Lemmas.Canon.MacroArgumentName
 import Qvnt.Lemmas.Canon.MacroNew
-import Qvnt.Lemmas.Canon.MacroProcess
-import Qvnt.Lemmas.Canon.MacroProcessNested
 import Qvnt.Lemmas.Canon.ParseContext
 import Qvnt.Lemmas.Canon.ParseEvalExtended
 import Qvnt.Lemmas.Canon.SymInit
